@@ -42,6 +42,12 @@ def cases(tag, tier):
             if dd not in seen:
                 seen.add(dd)
                 yield "dev1", dd, tier
+    # constructor arguments that are Python numbers, as application code passes them (zeros included)
+    for b in bases:
+        for path, kind in G.slots(b):
+            if kind == G.K_NUM:
+                for v in (0, 0.0, -0.0, 5, 1.5, -2):
+                    yield "typed", G.with_slot(b, path, v), "quick"
     if tier == "thorough":
         for dd in G.deviations(bases[0] if not k.child else G.skeleton(tag, optn, 1, [tuple(n for n, _ in G.PARTS[k.child].opt)]), 2):
             if dd not in seen:
